@@ -442,4 +442,152 @@ Section Facts.
         + left. inversion Hmem. lia.
     Qed.
   End Greedy.
+
+  (* ---- the loops compute the specification sequence ---- *)
+  Notation _rdp_fixed := (_rdp_fixed eps dist prio).
+  Notation rdp_fixed := (rdp_fixed n eps dist prio).
+
+  Lemma sort_nat_length l : length (sort_nat l) = length l.
+  Proof. symmetry. apply Permutation_length, sort_nat_perm. Qed.
+
+  (* `reduced` is appended to and sorted at the end; the stack empties or the budget runs out *)
+  Lemma fixed_loop_spec : forall fuel len st red,
+    Inv st (sort_nat red) -> n - length red < fuel ->
+    _rdp_fixed fuel len st red = Some (snd (iterS len (st, sort_nat red))).
+  Proof.
+    induction fuel as [|f IH]; intros len st red HI Hf; [lia|].
+    cbn [RdpFixed._rdp_fixed].
+    destruct ((0 <? len) && nonempty st) eqn:C.
+    - apply andb_true_iff in C. destruct C as [C1 C2]. apply Nat.ltb_lt in C1. apply nonempty_true in C2.
+      destruct len as [|len']; [lia|].
+      destruct (step_nonempty (st, sort_nat red) HI C2) as (p & l & r & st0 & _ & _ & _ & _ & _ & _ & Hb & Hs & _ & HI').
+      cbn [fst snd] in Hb, Hs. rewrite Hb. replace (S len' - 1) with len' by lia.
+      rewrite IH.
+      + rewrite iterS_succ_r. rewrite sort_nat_snoc, <- Hs. destruct (step (st, sort_nat red)); reflexivity.
+      + rewrite sort_nat_snoc, <- Hs. exact HI'.
+      + pose proof (nonempty_lt (st, sort_nat red) HI C2) as Hlt. cbn [snd] in Hlt.
+        rewrite sort_nat_length in Hlt. rewrite app_length. cbn. lia.
+    - f_equal. apply andb_false_iff in C. destruct C as [C|C].
+      + apply Nat.ltb_ge in C. replace len with 0 by lia. reflexivity.
+      + apply nonempty_false in C. subst st. rewrite iter_step_empty; reflexivity.
+  Qed.
+
+  Lemma init_sorted : sort_nat (reduced0 n) = reduced0 n.
+  Proof. apply sort_nat_SI_id. unfold reduced0. cbn. lia. Qed.
+
+  Theorem rdp_fixed_spec fuel k : n <= fuel -> rdp_fixed fuel k = Some (Sk k, rows (Sk k)).
+  Proof.
+    intros Hf. unfold RdpFixed.rdp_fixed. rewrite fixed_loop_spec.
+    - rewrite init_sorted. fold init. fold (state_at (k - 2)). fold (Sk k).
+      rewrite (compute_removed_rows n _ (Sk_WF k)). reflexivity.
+    - rewrite init_sorted. exact Inv_init.
+    - unfold reduced0. cbn [length]. lia.
+  Qed.
+
+  (* C01, fixed family: the loop returns within n iterations with a well-formed reduction *)
+  Theorem rdp_fixed_total fuel k : n <= fuel ->
+    exists red, rdp_fixed fuel k = Some (red, rows red) /\ WF n red.
+  Proof. intros Hf. exists (Sk k). split; [apply rdp_fixed_spec; exact Hf|apply Sk_WF]. Qed.
+
+  (* ---- global RDP ---- *)
+  Variable gcost : list nat -> T N.
+  Variable is_r2 : bool.
+  Notation curved := (curved is_r2).
+  Notation _grdp_loop := (_grdp_loop eps dist prio gcost is_r2).
+  Notation _grdp := (_grdp eps dist prio gcost is_r2).
+  Notation grdp := (grdp n eps dist prio gcost is_r2).
+  Notation mp_grdp := (mp_grdp n eps dist prio gcost is_r2).
+
+  Lemma grdp_loop_spec t : forall fuel s, InvS s -> n - length (snd s) < fuel ->
+    exists j, _grdp_loop t fuel (curved t (gcost (snd s))) (fst s) (snd s) = Some (snd (iterS j s), fst (iterS j s)) /\
+              (forall j', j' < j -> curved t (gcost (snd (iterS j' s))) = true /\ fst (iterS j' s) <> []) /\
+              (curved t (gcost (snd (iterS j s))) = false \/ fst (iterS j s) = []).
+  Proof.
+    induction fuel as [|f IH]; intros s HI Hf; [lia|].
+    cbn [RdpFixed._grdp_loop].
+    destruct (curved t (gcost (snd s)) && nonempty (fst s)) eqn:C.
+    - apply andb_true_iff in C. destruct C as [C1 C2]. apply nonempty_true in C2.
+      destruct (step_nonempty s HI C2) as (p & l & r & st0 & _ & _ & _ & _ & _ & _ & Hb & Hs & _ & HI').
+      rewrite Hb. rewrite sort_nat_snoc, (sort_nat_SI_id (snd s) (inv_si _ _ HI)), <- Hs.
+      destruct (IH (step s) HI') as (j & E & Hbefore & Hat).
+      { pose proof (step_length s HI C2). pose proof (nonempty_lt s HI C2). lia. }
+      exists (S j). rewrite iterS_succ_r. split; [exact E|]. split; [|exact Hat].
+      intros [|j'] Hj'; [cbn [iterS]; split; assumption|].
+      rewrite iterS_succ_r. apply Hbefore. lia.
+    - exists 0. cbn [iterS]. split; [reflexivity|]. split; [intros j' Hj'; lia|].
+      apply andb_false_iff in C. destruct C as [C|C]; [left; exact C|right; apply nonempty_false; exact C].
+  Qed.
+
+  (* k is the least k in [2,n] whose S_k is on the accepting side of t, or n if there is none *)
+  Definition FirstAcc (t : T N) (k : nat) : Prop :=
+    2 <= k <= n /\ (forall j, 2 <= j < k -> curved t (gcost (Sk j)) = true) /\
+    (curved t (gcost (Sk k)) = false \/ k = n).
+  Lemma FirstAcc_unique t k k' : FirstAcc t k -> FirstAcc t k' -> k = k'.
+  Proof.
+    intros (H1 & H2 & H3) (H1' & H2' & H3').
+    destruct (lt_eq_lt_dec k k') as [[Hlt|Heq]|Hgt]; auto.
+    - specialize (H2' k ltac:(lia)). destruct H3 as [H3|H3]; [congruence|lia].
+    - specialize (H2 k' ltac:(lia)). destruct H3' as [H3'|H3']; [congruence|lia].
+  Qed.
+
+  Lemma nonempty_prefix_length j : (forall j', j' < j -> fst (state_at j') <> []) -> length (snd (state_at j)) = j + 2.
+  Proof.
+    induction j as [|j IH]; intros H; [rewrite state_at_length; lia|].
+    rewrite state_at_S, step_length; [|apply state_at_inv|apply H; lia]. rewrite IH; [lia|]. intros j' Hj'. apply H. lia.
+  Qed.
+
+  (* the state global RDP stops in *)
+  Lemma grdp_stops t fuel : n <= fuel ->
+    exists k, FirstAcc t k /\
+      _grdp t fuel (stack0 n) (reduced0 n) = Some (Sk k, fst (state_at (k - 2))).
+  Proof.
+    intros Hf. destruct (grdp_loop_spec t fuel init Inv_init) as (j & E & Hbefore & Hat).
+    { unfold init, reduced0. cbn [snd length]. lia. }
+    fold (state_at j) in *.
+    assert (Hlen : length (snd (state_at j)) = j + 2).
+    { apply nonempty_prefix_length. intros j' Hj'. apply (Hbefore j' Hj'). }
+    pose proof (Inv_len_le _ _ (state_at_inv j)) as Hle.
+    exists (j + 2). unfold Sk. replace (j + 2 - 2) with j by lia. split; [|exact E].
+    split; [lia|]. split.
+    - intros i Hi. replace (i - 2) with (i - 2 + 0) by lia. apply (Hbefore (i - 2)). lia.
+    - destruct Hat as [Hat|Hat]; [left; exact Hat|right].
+      pose proof (state_at_inv j) as HI. unfold InvS in HI. rewrite Hat in HI. apply Inv_empty_full in HI. lia.
+  Qed.
+
+  (* C06, first clause *)
+  Theorem grdp_first_accepting t fuel : n <= fuel ->
+    exists k, FirstAcc t k /\ grdp t fuel = Some (Sk k, rows (Sk k)).
+  Proof.
+    intros Hf. destruct (grdp_stops t fuel Hf) as (k & HF & E). exists k. split; [exact HF|].
+    unfold RdpFixed.grdp. rewrite E. rewrite (compute_removed_rows n _ (Sk_WF k)). reflexivity.
+  Qed.
+
+  (* C06, second clause: the continuation re-uses stack and retained set *)
+  Theorem mp_grdp_spec t fuel m : n <= fuel ->
+    exists k, FirstAcc t k /\ mp_grdp t fuel m = Some (Sk (Nat.max k (Nat.min m n)), rows (Sk (Nat.max k (Nat.min m n)))).
+  Proof.
+    intros Hf. destruct (grdp_stops t fuel Hf) as (k & HF & E). exists k. split; [exact HF|].
+    unfold RdpFixed.mp_grdp. rewrite E. destruct HF as (Hk & _).
+    rewrite Sk_length. replace (Nat.min (Nat.max k 2) n) with k by lia.
+    destruct (Nat.leb_spec m k) as [Hm|Hm].
+    - replace (Nat.max k (Nat.min m n)) with k by lia. rewrite (compute_removed_rows n _ (Sk_WF k)). reflexivity.
+    - pose proof (state_at_inv (k - 2)) as HI. pose proof (Sk_WF k) as HW.
+      rewrite fixed_loop_spec.
+      + rewrite (sort_nat_SI_id (Sk k)) by apply HW.
+        assert (Hst : (fst (state_at (k - 2)), Sk k) = state_at (k - 2)) by (unfold Sk; destruct (state_at (k - 2)); reflexivity).
+        rewrite Hst, <- state_at_add. replace (k - 2 + (m - k)) with (m - 2) by lia. fold (Sk m).
+        replace (Nat.max k (Nat.min m n)) with (Nat.min m n) by lia.
+        destruct (Nat.le_ge_cases m n) as [Hmn|Hmn].
+        * replace (Nat.min m n) with m by lia. rewrite (compute_removed_rows n _ (Sk_WF m)). reflexivity.
+        * replace (Nat.min m n) with n by lia. rewrite (Sk_clip m Hmn). rewrite (compute_removed_rows n _ (Sk_WF n)). reflexivity.
+      + rewrite (sort_nat_SI_id (Sk k)) by apply HW. exact HI.
+      + rewrite Sk_length. lia.
+  Qed.
+
+  Theorem grdp_total t fuel : n <= fuel ->
+    exists red, grdp t fuel = Some (red, rows red) /\ WF n red.
+  Proof. intros Hf. destruct (grdp_first_accepting t fuel Hf) as (k & _ & E). exists (Sk k). split; [exact E|apply Sk_WF]. Qed.
+  Theorem mp_grdp_total t fuel m : n <= fuel ->
+    exists red, mp_grdp t fuel m = Some (red, rows red) /\ WF n red.
+  Proof. intros Hf. destruct (mp_grdp_spec t fuel m Hf) as (k & _ & E). eexists. split; [exact E|apply Sk_WF]. Qed.
 End Facts.
